@@ -4,6 +4,7 @@ import AdfObdd.Stable
 import AdfObdd.NgEndToEnd
 import AdfObdd.NgChannel
 import AdfObdd.NgPartialHeu
+import AdfObdd.NgChannelMore
 /-! # C05 — the nogood-learning search is exact and terminates for every heuristic
 
 **Main theorem** `ng_search_exact` (= `ng_search_statement`): for the CONCRETE executable model
@@ -38,7 +39,15 @@ How it is proved (files `NgGen`, `NgGenHalt`, `NgSem`, `NgConcrete`, `NgLeaf`, `
 **Channel clause** (`channel_variants_statement`, `channel_variants_deliver_exactly`): the search as a
 producer that `send`s each model into a channel (unbounded or bounded) and drops the sender when
 `nogood_internal` returns, a consumer iterating over the receiver, EVERY schedule of the two
-(`Channel.lean`, `NgChannel.lean`); `iterator_variant_exact` is `stable_nogood`.
+(`Channel.lean`, `NgChannel.lean`); `iterator_variant_exact` is `stable_nogood`,
+`iterator_variant_exact_two_valued` the sequential consumer of the CLI's `--twoval` (bin/src/main.rs:238-242).
+Second review, item 10 (`ChannelZero`, `ChannelClones`, `ChannelDrop`, `NgChannelMore`):
+`rendezvous_channel_delivers_exactly` (`bounded(0)`, which `Chan.run` treats as "always full": there the
+hand-over is one joint event), `shared_sender_clones_deliver` (k searches of one object on CLONES of one
+sender, explicit sender count: the consumer receives the concatenation and its loop ends exactly after the
+last handle is dropped), `receiver_dropped_before_last_model_panics` (the `.expect` at the send site with the
+concrete producer).  In `Chan.Cfg` the flag `closed` means "the ONE sender the search was handed is dropped";
+it coincides with "channel disconnected" only when no clone exists - the clone model is `Chan.MCfg`.
 
 **Heuristics that give no answer** (`heuristic_totality_necessary`): `HeuOK.total` cannot be dropped
 (`NgPartialHeu.lean`).
@@ -312,6 +321,129 @@ theorem iterator_variant_exact (h : SM.Heu) (s : Store) (n : Nat) (ac : List Nat
   rw [NConc.ngSearch_eq] at hd ha hb ⊢
   exact NConc.iterator_variant (SM.heuCall h) s n ac true hd a b ha hb
 
+/-- the same for both modes; `stable = false` needs the support hypothesis of the two-valued mode -/
+theorem iterator_variant_exact_any_mode (h : SM.Heu) (s : Store) (n : Nat) (ac : List Nat) (stable : Bool) (w : WF s)
+    (hn : ac.length = n) (hv : ∀ t ∈ ac, t < s.nodes.size)
+    (hsup : stable = false → ∀ t ∈ ac, ∀ σ τ : Asg, (∀ i, i < n → σ i = τ i) → eval s t σ = eval s t τ) :
+    ∃ fuel, (SM.ngSearch h fuel s n ac stable).2.2.2 = true ∧
+      let res := (SM.ngSearch h fuel s n ac stable).2.1
+      ExactModels s n ac stable res ∧
+      ∀ a b, fuel + res.length + 1 ≤ a → res.length + 1 ≤ b →
+        let c := NConc.chanRun (SM.heuCall h) none (List.replicate a Chan.Ev.prod ++ List.replicate b Chan.Ev.cons) s n ac stable
+        c.consDone = true ∧ c.got = res := by
+  obtain ⟨fuel, hd, hex⟩ := ng_search_exact h s n ac stable w hn hv hsup
+  refine ⟨fuel, hd, hex, ?_⟩
+  intro a b ha hb
+  rw [NConc.ngSearch_eq] at hd ha hb ⊢
+  exact NConc.iterator_variant (SM.heuCall h) s n ac stable hd a b ha hb
+
+/-- **the CLI's `--twoval` consumer** (bin/src/main.rs:238-242: `unbounded()`, the whole call of
+`two_val_nogood_channel`, then `for model in receiver.into_iter()`): sequential and two-valued.  This schedule
+is not `Chan.Fair m` for useful `m`, so clause 5 of `channel_variants_statement` does not reach it; here it is:
+the loop over the receiver ends and has received exactly the list of two-valued models the search returns -/
+theorem iterator_variant_exact_two_valued (h : SM.Heu) (s : Store) (n : Nat) (ac : List Nat) (w : WF s)
+    (hn : ac.length = n) (hv : ∀ t ∈ ac, t < s.nodes.size)
+    (hsup : ∀ t ∈ ac, ∀ σ τ : Asg, (∀ i, i < n → σ i = τ i) → eval s t σ = eval s t τ) :
+    ∃ fuel, (SM.ngSearch h fuel s n ac false).2.2.2 = true ∧
+      let res := (SM.ngSearch h fuel s n ac false).2.1
+      ExactModels s n ac false res ∧
+      ∀ a b, fuel + res.length + 1 ≤ a → res.length + 1 ≤ b →
+        let c := NConc.chanRun (SM.heuCall h) none (List.replicate a Chan.Ev.prod ++ List.replicate b Chan.Ev.cons) s n ac false
+        c.consDone = true ∧ c.got = res :=
+  iterator_variant_exact_any_mode h s n ac false w hn hv (fun _ => hsup)
+
+/-! ## `bounded(0)`, clones of the sender, a receiver dropped early (second review, item 10) -/
+
+/-- **`bounded(0)`** (crossbeam's zero-capacity channel is a rendezvous: `send` completes when a receiver takes
+the message).  `Chan.run` with `cap = some 0` never sends (`full (some 0) _ = true`), so the clauses of
+`channel_variants_statement` hold there for the wrong reason and clause 5 excludes it.  In the rendezvous model
+`Chan.Zero` (the hand-over is one joint event, linearised as the consumer's step; a producer standing at `send`
+is blocked) the delivery theorem holds: for every schedule (1) the consumer has received a prefix of `res`,
+nothing is ever queued; (2) once the sender is dropped everything was received and the sending end saw one
+`send` per model, in order, then `close`; (3) when the consumer's loop has ended it has received exactly `res`;
+(4) every schedule with enough fair rounds ends the consumer's loop -/
+theorem rendezvous_channel_delivers_exactly (h : SM.Heu) (s : Store) (n : Nat) (ac : List Nat) (stable : Bool) (w : WF s)
+    (hn : ac.length = n) (hv : ∀ t ∈ ac, t < s.nodes.size)
+    (hsup : stable = false → ∀ t ∈ ac, ∀ σ τ : Asg, (∀ i, i < n → σ i = τ i) → eval s t σ = eval s t τ) :
+    ∃ fuel, (SM.ngSearch h fuel s n ac stable).2.2.2 = true ∧
+      let res := (SM.ngSearch h fuel s n ac stable).2.1
+      ExactModels s n ac stable res ∧
+      ∀ (sched : List Chan.Ev),
+        let c := NConc.chanRunZ (SM.heuCall h) sched s n ac stable
+        (c.got <+: res ∧ c.buf = []) ∧
+        (c.closed = true → c.got = res ∧ c.log = res.map Chan.ChEv.send ++ [Chan.ChEv.close]) ∧
+        (c.consDone = true → c.got = res ∧ c.closed = true) ∧
+        (∀ m, Chan.Fair m sched → fuel + res.length + 1 + res.length + 1 ≤ m → c.consDone = true) := by
+  obtain ⟨fuel, hd, hex⟩ := ng_search_exact h s n ac stable w hn hv hsup
+  refine ⟨fuel, hd, hex, ?_⟩
+  intro sched
+  rw [NConc.ngSearch_eq] at hd ⊢
+  exact NConc.rendezvous_delivers (SM.heuCall h) s n ac stable hd sched
+
+/-- **the receiver is dropped before the last model was sent: the `.expect("Sender should accept results")` at
+the send site (`adf.rs:922`) panics** - with the concrete producer `NConc.ngProducer` (the search itself), any
+capacity: after ANY schedule `sched` in which fewer models were handed to the channel than the search finds
+(`sent < res.length`), the consumer drops the receiver; every continuation `more` containing more than `fuel`
+producer steps ends with the producer thread panicked (the unwinding drops the sender), and the consumer has
+exactly what it had received when it dropped the receiver.  (If all models were already sent there is nothing
+to panic about: `Chan.no_pending_no_panic`.) -/
+theorem receiver_dropped_before_last_model_panics (h : SM.Heu) (s : Store) (n : Nat) (ac : List Nat) (stable : Bool)
+    (w : WF s) (hn : ac.length = n) (hv : ∀ t ∈ ac, t < s.nodes.size)
+    (hsup : stable = false → ∀ t ∈ ac, ∀ σ τ : Asg, (∀ i, i < n → σ i = τ i) → eval s t σ = eval s t τ) :
+    ∃ fuel, (SM.ngSearch h fuel s n ac stable).2.2.2 = true ∧
+      let res := (SM.ngSearch h fuel s n ac stable).2.1
+      ExactModels s n ac stable res ∧
+      ∀ (cap : Option Nat) (sched : List Chan.Ev) (more : List Chan.DEv),
+        (NConc.chanRun (SM.heuCall h) cap sched s n ac stable).sent < res.length →
+        fuel < more.count Chan.DEv.prod →
+        let c := NConc.chanRunD (SM.heuCall h) cap (sched.map Chan.Ev.toD ++ Chan.DEv.dropRecv :: more) s n ac stable
+        c.panicked = true ∧ c.base.got = (NConc.chanRun (SM.heuCall h) cap sched s n ac stable).got := by
+  obtain ⟨fuel, hd, hex⟩ := ng_search_exact h s n ac stable w hn hv hsup
+  refine ⟨fuel, hd, hex, ?_⟩
+  intro cap sched more hlt hmore
+  rw [NConc.ngSearch_eq] at hd hlt
+  exact NConc.receiver_dropped_panics (SM.heuCall h) cap s n ac stable hd sched more hlt hmore
+
+/-- **several searches of one object on clones of one sender** (the library's own test, adf.rs "multi-threaded
+usage": `stable_nogood_channel(h1, s.clone()); stable_nogood_channel(h2, s.clone()); two_val_nogood_channel(h3, s)`
+in one thread, `while let Ok(v) = r.recv()` in another).  `hs` = the calls (heuristic, stable?), in order, on the
+object with store `s`; every search starts on the store its predecessor left behind.  There are fuels (`calls`)
+within which all searches halt; every search returns exactly the stable resp. two-valued models of the object's
+conditions (`NConc.ngAllExact`); and in the explicit clone model `Chan.MCfg` (sender COUNT; a search drops only
+the handle it was handed; the channel is disconnected when the count is 0), for every capacity and schedule:
+ 1. received ++ queued is a prefix of the concatenation `all` of the k result lists;
+ 2. the count is 0 iff the last call has returned, then exactly k handles were dropped; with fewer than k drops a
+    handle is alive and the consumer's loop has NOT ended (the first k-1 drops do not disconnect);
+ 3. when the count is 0: received ++ queued = `all`;
+ 4. when the consumer's loop has ended it has received exactly `all`, count 0, queue empty;
+ 5. (capacity ≥ 1 or unbounded) every schedule with `m` fair rounds ends the consumer's loop. -/
+theorem shared_sender_clones_deliver (x : SM.Heu × Bool) (tl : List (SM.Heu × Bool)) (s : Store) (n : Nat) (ac : List Nat)
+    (w : WF s) (hn : ac.length = n) (hv : ∀ t ∈ ac, t < s.nodes.size)
+    (hsup : (∃ y ∈ x :: tl, y.2 = false) → ∀ t ∈ ac, ∀ σ τ : Asg, (∀ i, i < n → σ i = τ i) → eval s t σ = eval s t τ) :
+    ∃ (c0 : NConc.CHeu × Bool × Nat) (cs : List (NConc.CHeu × Bool × Nat)),
+      (c0 :: cs).map (fun c => (c.1, c.2.1)) = (x :: tl).map (fun y => (SM.heuCall y.1, y.2)) ∧
+      NConc.ngAllDone n ac s (c0 :: cs) ∧ NConc.ngAllExact n ac (ac.map (eval s)) s (c0 :: cs) ∧
+      ∀ cap : Option Nat, ∃ m, ∀ sched : List Chan.Ev,
+        let c := NConc.chanRunM cap sched n ac s c0 cs
+        let all := (NConc.ngResults n ac s (c0 :: cs)).flatten
+        (c.got ++ c.buf <+: all) ∧
+        ((c.senders = 0 ↔ c.running = false) ∧ (c.senders = 0 → c.drops = cs.length + 1) ∧
+          (c.drops < cs.length + 1 → 1 ≤ c.senders ∧ c.consDone = false)) ∧
+        (c.senders = 0 → c.got ++ c.buf = all) ∧
+        (c.consDone = true → c.got = all ∧ c.senders = 0 ∧ c.buf = []) ∧
+        ((∀ k, cap = some k → 1 ≤ k) → Chan.Fair m sched → c.consDone = true) := by
+  obtain ⟨calls, h1, h2, h3⟩ := NConc.ng_fuels_exist n ac (ac.map (eval s))
+    ((x :: tl).map (fun y => (SM.heuCall y.1, y.2))) s
+    (by intro y hy; obtain ⟨z, _, rfl⟩ := List.mem_map.mp hy; exact NConc.heuOK_builtin z.1) w hn hv rfl
+    (by
+      intro ⟨y, hy, hy2⟩
+      obtain ⟨z, hz, rfl⟩ := List.mem_map.mp hy
+      exact hsup ⟨z, hz, hy2⟩)
+  cases calls with
+  | nil => simp at h1
+  | cons c0 cs =>
+    exact ⟨c0, cs, h1, h2, h3, fun cap => NConc.clones_deliver_ng cap n ac s c0 cs h2⟩
+
 /-! ## heuristics that give no answer -/
 
 /-- what the code does with a heuristic answer `None` (`adf.rs:851-853`: `backtrack = true`): the iteration
@@ -440,6 +572,103 @@ example : ∃ fuel,
     (by intro f hf; simp at hf; rcases hf with rfl | rfl <;> simp [NConc.atomsLt])
     [some false, some false] [some true, some true] (by decide) mutual_support_models
 
+/-- the library's test pattern on `ac(a) = b`, `ac(b) = a`: two stable searches (two different heuristics) and a
+two-valued one (Simple) on clones of one sender, a `bounded(1)` channel: under the alternating schedule the
+consumer's loop ends, three handles were dropped, and what it has received is the concatenation of the three
+result lists, which contains the stable model (both false) from the first search and the two-valued model
+"both true" from the third -/
+example : ∃ (c0 : NConc.CHeu × Bool × Nat) (cs : List (NConc.CHeu × Bool × Nat)) (m : Nat),
+    let c := NConc.chanRunM (some 1) (List.flatten (List.replicate m [Chan.Ev.prod, Chan.Ev.cons])) 2
+      (buildNative 2 [.atom 1, .atom 0]).2 (buildNative 2 [.atom 1, .atom 0]).1 c0 cs
+    cs.length = 2 ∧ c.consDone = true ∧ c.drops = 3 ∧ c.senders = 0 ∧
+    c.got = (NConc.ngResults 2 (buildNative 2 [.atom 1, .atom 0]).2 (buildNative 2 [.atom 1, .atom 0]).1 (c0 :: cs)).flatten ∧
+    [some true, some true] ∈ c.got.map (fun v => v.map storeIsConst) := by
+  have hf := NConc.compiled_facts [.atom 1, .atom 0] (by simp [VBOT])
+    (by intro f hf; simp at hf; rcases hf with rfl | rfl <;> simp [NConc.atomsLt])
+  obtain ⟨w, hl, hv, hD, hs⟩ := hf
+  have hD : (buildNative 2 [.atom 1, .atom 0]).2.map (eval (buildNative 2 [.atom 1, .atom 0]).1) =
+      [Fm.atom 1, Fm.atom 0].map Fm.sem := hD
+  obtain ⟨c0, cs, h1, h2, h3, h4⟩ := shared_sender_clones_deliver (.minPathsMaxVarImp, true)
+    [(.maxVarImpMinPaths, true), (.simple, false)] (buildNative 2 [.atom 1, .atom 0]).1 2 (buildNative 2 [.atom 1, .atom 0]).2
+    w hl hv (fun _ => hs)
+  obtain ⟨m, h5⟩ := h4 (some 1)
+  have hlen : cs.length = 2 := by
+    have := congrArg List.length h1
+    simpa using this
+  refine ⟨c0, cs, m, hlen, ?_⟩
+  have ⟨_, ⟨hz, hdr, _⟩, _, hdone, hfair⟩ := h5 (List.flatten (List.replicate m [Chan.Ev.prod, Chan.Ev.cons]))
+  have hcd := hfair (by intro k hk; cases hk; exact Nat.le_refl 1) (Chan.fair_alternating m)
+  have ⟨hgot, hs0, _⟩ := hdone hcd
+  refine ⟨hcd, by rw [hdr hs0, hlen], hs0, hgot, ?_⟩
+  rw [hgot]
+  -- the third call is the two-valued one: its result contains "both true"
+  match cs, hlen, h1, h3 with
+  | [c1, c2], _, h1, h3 =>
+    obtain ⟨hc0, st0, f0⟩ := c0
+    obtain ⟨hc1, st1, f1⟩ := c1
+    obtain ⟨hc2, st2, f2⟩ := c2
+    simp only [List.map_cons, List.map_nil, List.cons.injEq, Prod.mk.injEq, and_true] at h1
+    obtain ⟨⟨_, rfl⟩, ⟨_, rfl⟩, ⟨_, rfl⟩⟩ := h1
+    have hex := h3.2.2.1
+    rw [hD] at hex
+    have hmem := (hex.2 [some true, some true]).mpr (mutual_support_models _ (Or.inr rfl))
+    simp only [NConc.ngResults, List.flatten_cons, List.flatten_nil, List.append_nil, List.map_append, List.mem_append]
+    exact Or.inr (Or.inr hmem)
+
+/-- `receiver_dropped_before_last_model_panics` on that framework (two two-valued models): the consumer drops the
+receiver before anything was sent (`sched = []`); after enough producer steps the search thread has panicked
+and the consumer has nothing -/
+example (h : SM.Heu) : ∃ k,
+    let c := NConc.chanRunD (SM.heuCall h) (some 1) (Chan.DEv.dropRecv :: List.replicate k Chan.DEv.prod)
+      (buildNative 2 [.atom 1, .atom 0]).1 2 (buildNative 2 [.atom 1, .atom 0]).2 false
+    c.panicked = true ∧ c.base.got = [] := by
+  obtain ⟨w, hl, hv, hD, hs⟩ := NConc.compiled_facts [.atom 1, .atom 0] (by simp [VBOT])
+    (by intro f hf; simp at hf; rcases hf with rfl | rfl <;> simp [NConc.atomsLt])
+  have hD : (buildNative 2 [.atom 1, .atom 0]).2.map (eval (buildNative 2 [.atom 1, .atom 0]).1) =
+      [Fm.atom 1, Fm.atom 0].map Fm.sem := hD
+  obtain ⟨fuel, _, hex, hp⟩ := receiver_dropped_before_last_model_panics h (buildNative 2 [.atom 1, .atom 0]).1 2
+    (buildNative 2 [.atom 1, .atom 0]).2 false w hl hv (fun _ => hs)
+  refine ⟨fuel + 1, ?_⟩
+  have hpos : 0 < (SM.ngSearch h fuel (buildNative 2 [.atom 1, .atom 0]).1 2 (buildNative 2 [.atom 1, .atom 0]).2 false).2.1.length := by
+    have hex' := hex
+    simp only [ExactModels, hD] at hex'
+    have := (hex'.2 [some true, some true]).mpr (mutual_support_models _ (Or.inr rfl))
+    rw [List.mem_map] at this
+    obtain ⟨v, hv, _⟩ := this
+    exact List.length_pos_of_mem hv
+  exact hp (some 1) [] (List.replicate (fuel + 1) Chan.DEv.prod) hpos (by simp)
+
+/-- the CLI's `--twoval` schedule and the rendezvous channel on `ac(a) = b`, `ac(b) = a` (two-valued models: both
+false, both true): the sequential consumer ends having received both models; through `bounded(0)` under the
+alternating schedule as well -/
+example (h : SM.Heu) : ∃ a b m,
+    let st := (buildNative 2 [.atom 1, .atom 0]).1
+    let ac := (buildNative 2 [.atom 1, .atom 0]).2
+    let c := NConc.chanRun (SM.heuCall h) none (List.replicate a Chan.Ev.prod ++ List.replicate b Chan.Ev.cons) st 2 ac false
+    let z := NConc.chanRunZ (SM.heuCall h) (List.flatten (List.replicate m [Chan.Ev.prod, Chan.Ev.cons])) st 2 ac false
+    (c.consDone = true ∧ [some true, some true] ∈ c.got.map (fun v => v.map storeIsConst) ∧
+      [some false, some false] ∈ c.got.map (fun v => v.map storeIsConst)) ∧
+    (z.consDone = true ∧ z.buf = [] ∧ z.got = c.got) := by
+  obtain ⟨w, hl, hv, hD, hs⟩ := NConc.compiled_facts [.atom 1, .atom 0] (by simp [VBOT])
+    (by intro f hf; simp at hf; rcases hf with rfl | rfl <;> simp [NConc.atomsLt])
+  have hD : (buildNative 2 [.atom 1, .atom 0]).2.map (eval (buildNative 2 [.atom 1, .atom 0]).1) =
+      [Fm.atom 1, Fm.atom 0].map Fm.sem := hD
+  obtain ⟨fuel, hd, hex, hseq⟩ := iterator_variant_exact_two_valued h (buildNative 2 [.atom 1, .atom 0]).1 2
+    (buildNative 2 [.atom 1, .atom 0]).2 w hl hv hs
+  have hz := NConc.rendezvous_delivers (SM.heuCall h) (buildNative 2 [.atom 1, .atom 0]).1 2
+    (buildNative 2 [.atom 1, .atom 0]).2 false (fuel := fuel) (by rw [← NConc.ngSearch_eq]; exact hd)
+  rw [← NConc.ngSearch_eq] at hz
+  let L := (SM.ngSearch h fuel (buildNative 2 [.atom 1, .atom 0]).1 2 (buildNative 2 [.atom 1, .atom 0]).2 false).2.1.length
+  refine ⟨fuel + L + 1, L + 1, fuel + L + 1 + L + 1, ?_⟩
+  have ⟨h1, h2⟩ := hseq (fuel + L + 1) (L + 1) (Nat.le_refl _) (Nat.le_refl _)
+  have ⟨hz1, _, hz3, hz4⟩ := hz (List.flatten (List.replicate (fuel + L + 1 + L + 1) [Chan.Ev.prod, Chan.Ev.cons]))
+  have hzd := hz4 _ (Chan.fair_alternating _) (Nat.le_refl _)
+  simp only [ExactModels, hD] at hex
+  refine ⟨⟨h1, ?_, ?_⟩, hzd, hz1.2, ?_⟩
+  · rw [h2]; exact (hex.2 _).mpr (mutual_support_models _ (Or.inr rfl))
+  · rw [h2]; exact (hex.2 _).mpr (mutual_support_models _ (Or.inl rfl))
+  · rw [h2]; exact (hz3 hzd).1
+
 /-- the laws of the semantic instance are satisfiable by a real start state (grounded interpretation
 of a one-statement framework) -/
 example : NSem.OkV ([1].map (eval Store.init)) 1 true
@@ -451,6 +680,10 @@ end C05
 #print axioms C05.channel_variants_deliver_exactly
 #print axioms C05.channel_variants_any_heuristic
 #print axioms C05.iterator_variant_exact
+#print axioms C05.iterator_variant_exact_two_valued
+#print axioms C05.rendezvous_channel_delivers_exactly
+#print axioms C05.receiver_dropped_before_last_model_panics
+#print axioms C05.shared_sender_clones_deliver
 #print axioms C05.heuristic_totality_necessary
 
 /-! the side condition of the two-valued mode is necessary: statement 0 with the foreign variable 5 as
